@@ -14,5 +14,4 @@ CONSTANTS
   Closer = FALSE
   Defects <- Bug_sendNoFinally
 INVARIANT ReconnectOK
-INVARIANT QuietOK
 CHECK_DEADLOCK FALSE
